@@ -25,7 +25,9 @@ def field_index(struct, field):
 
 def get(fname):
     fn = mirrun.get_fn("lib", "::" + fname, sig="&mut SessionManager")
-    ex = engine.Executor(fn)
+    # private helpers of SessionManager called on self are executed in place ("extract method"
+    # must not hide a store from the obligation)
+    ex = engine.Executor(fn, inline=mirrun.self_methods("lib", "SessionManager"))
     ev = ex.run()
     return fn, ex, ev
 
@@ -208,6 +210,27 @@ def per_ip_track(ob, tier):
     return dict(res, verdict="holds", queries=q.n, solver_s=round(q.secs, 2))
 
 
+def backward_slice(fn, local):
+    """locals the value of `local` may depend on (assignments, call arguments -> call result,
+    closure captures, references), over the function's MIR text"""
+    deps = {}
+    for b in fn.blocks.values():
+        for st in list(b["stmts"]) + [b["term"] or ""]:
+            m = re.match(r"^\(?(_\d+)(?:[.\s:][^=]*)? = (.*)$", st)
+            if not m:
+                continue
+            rhs = re.sub(r"-> \[.*$", "", m.group(2))
+            deps.setdefault(m.group(1), set()).update(re.findall(r"_\d+", rhs))
+    seen, work = set(), [local]
+    while work:
+        x = work.pop()
+        if x in seen:
+            continue
+        seen.add(x)
+        work.extend(deps.get(x, ()))
+    return seen
+
+
 def per_ip_limit(ob, tier):
     """cluster_ip_at_limit: false for limit 0 and for an already tracked token, otherwise the
     stored count compared with `>=` against the limit; the limit is override.unwrap_or(global)"""
@@ -248,6 +271,14 @@ def per_ip_limit(ob, tier):
     lim = [e for e in ev if e.kind == "call" and e.callee.endswith("::effective_max_connections_per_ip")]
     isa = [e for e in ev if e.kind == "call" and re.search(r"Option::<&.*>::is_some_and::<", e.callee)]
     trk = [e for e in isa if "HashSet" in e.callee]
+    if not trk:
+        # any other boolean test made before the count lookup that forces `false`
+        fwd = [e for e in ev if e.kind == "call" and re.search(r"HashMap::<String, HashMap<std::net::IpAddr, usize>>::get", e.callee)]
+        for i, e in enumerate(ev):
+            e.seq = getattr(e, "seq", i)
+        first_fwd = min([e.seq for e in fwd], default=10 ** 9)
+        trk = [e for e in ev if e.kind == "call" and e.result is not None and e.result.sort == "Bool" and getattr(e, "seq", 0) < first_fwd
+               and e.dest and not e.callee.endswith("::effective_max_connections_per_ip")][:1]
     cnt = [e for e in isa if re.search(r"Option::<&usize>::is_some_and", e.callee)]
     if len(rets) != 1 or len(lim) != 1 or len(trk) != 1 or len(cnt) != 1:
         problems.append("cluster_ip_at_limit: shape (returns=%d limit calls=%d tracked tests=%d count tests=%d)" % (len(rets), len(lim), len(trk), len(cnt)))
@@ -266,6 +297,11 @@ def per_ip_limit(ob, tier):
             problems.append("with a positive limit and an untracked token the answer is not the count test")
         if q([ret.guard, engine.NOT(zero), engine.NOT(trk[0].guard)])[0] != "unsat":
             problems.append("with a positive limit the reverse index is not consulted")
+        # the exemption is for (token, cluster, ip): its test has to depend on all three
+        sl = backward_slice(fn, trk[0].dest)
+        for nm in ("token", "cluster_id", "ip"):
+            if fn.debug.get(nm) not in sl:
+                problems.append("the already-tracked exemption does not depend on `%s`: a connection holding a slot elsewhere is waved through a full (cluster, ip)" % nm)
         wit += [q([ret.guard, r0])[0], q([ret.guard, engine.NOT(r0)])[0]]
         tq += q.n
         ts += q.secs
@@ -368,6 +404,50 @@ def per_ip_gate(ob, tier):
     return dict(res, verdict="holds")
 
 
+def timer_hint(ob, tier):
+    """Timer::poll_to: a slot's `next_tick` (when the event loop has to come back for it) only
+    ever moves to the minimum of what it was and the tick of the entry just visited; if a later
+    entry of the same slot overwrote it, an earlier pending timeout would be delivered up to a
+    wheel lap late (stuck sessions are not reclaimed within their timeout)."""
+    src = open(mirrun.REPO + "/lib/src/timer.rs").read()
+
+    def fields(struct):
+        m = re.search(r"struct %s(?:<[^{]*>)? \{(.*?)\n\}" % struct, src, re.S)
+        return re.findall(r"^\s*(?:pub(?:\([\w:]+\))? )?(\w+):", m.group(1), re.M)
+    nt_i = fields("WheelEntry").index("next_tick")
+    links_i, tick_i = fields("Entry").index("links"), fields("EntryLinks").index("tick")
+    fn = mirrun.get_fn("lib", "::poll_to", sig="&mut Timer<T>")
+    ex = engine.Executor(fn, loop_bound=lambda f, h: 1)
+    ev = ex.run()
+    for i, e in enumerate(ev):
+        e.seq = i
+    q = Q(ex.ctx)
+    res = {"paths": ex.stats["nodes"], "functions": [fn.name]}
+    it0 = [e for e in ev if e.node[1] and all(i == 0 for _, i in e.node[1])]
+    # stores into some wheel[slot].next_tick that are not the TICK_MAX reset
+    ws = [e for e in it0 if e.kind == "write" and re.match(r"^\(\*_\d+\)\.%d$" % nt_i, e.place) and e.value and getattr(e, "sort", None) == 64
+          and not e.value.startswith("|const.")]
+    hints = [v.term for k, v in ex.initial.items() if re.match(r"^\(\*_\d+\)\.%d$" % nt_i, k)]
+    ticks = [v.term for k, v in ex.initial.items() if re.match(r"^\(\*_\d+\)\.%d\.%d$" % (links_i, tick_i), k)]
+    if not ws or not ticks:
+        return dict(res, verdict="inconclusive", why="shape: next_tick stores=%d entry tick reads=%d" % (len(ws), len(ticks)))
+    problems = []
+    for w in ws:
+        if not any(q([w.guard, engine.NOT("(bvule %s %s)" % (w.value, t))])[0] == "unsat" for t in ticks):
+            problems.append("a slot's next_tick can be set later than the tick of the pending entry just visited")
+        if not hints or not any(q([w.guard, engine.NOT("(bvule %s %s)" % (w.value, h))])[0] == "unsat" for h in hints):
+            problems.append("a slot's next_tick can move later than its previous value: an earlier pending timeout of the same slot is forgotten until the next lap")
+    wit = [q([w.guard])[0] for w in ws]
+    res["witness"] = "hint store reachable: %s; %d old-hint reads, %d entry-tick reads" % (wit, len(hints), len(ticks))
+    res["witness_ok"] = all(x == "sat" for x in wit)
+    res["queries"], res["solver_s"] = q.n, round(q.secs, 2)
+    if problems:
+        return dict(res, verdict="counterexample", text="; ".join(sorted(set(problems))), model={"problems": problems}, replay={"reproduced": False, "why": "no native replay"})
+    return dict(res, verdict="holds")
+
+
 def run(ob, tier):
+    if ob["which"] == "timer_hint":
+        return timer_hint(ob, tier)
     return {"check_limits": check_limits, "incr_decr": incr_decr, "per_ip_track": per_ip_track, "per_ip_limit": per_ip_limit,
             "per_ip_gate": per_ip_gate}[ob["which"]](ob, tier)
